@@ -150,6 +150,7 @@ def unflatten (v sep recursive : Value) : Res Value :=
   match bytesLossy sep with
   | none => .err
   | some s =>
+    if s = [] then .err else              -- "separator must not be empty" (was: stack overflow)
     match recursive with
     | .bool r =>
       match v with
